@@ -1370,12 +1370,44 @@ Definition expected_settings_changed : list string :=
       "call:self.connection.stream_close_waiter.set";
     ")" ]%string.
 
+(* Connection.resume_writing: write_ready.set(), then -- unless the connection is closing -- flush()
+   writes whatever h2 has queued (frames queued while paused, e.g. the RST_STREAM of reset_nowait) *)
+Definition expected_resume_writing : list string :=
+  [ "call:self.write_ready.set";
+    "call:self.is_closing";
+    "if:not self.is_closing()(";
+      "call:self.flush";
+    ")" ]%string.
+
+Definition expected_flush : list string :=
+  [ "call:self._connection.data_to_send";
+    "if:data(";
+      "call:self._transport.write";
+    ")" ]%string.
+
+(* every h2.send_data of send_data is followed, with nothing in between, by data_to_send and
+   transport.write: a sender never leaves a DATA frame queued in h2 across a suspension point, so
+   the flush of resume_writing writes no DATA frame of a sender (what the model assumes) *)
+Fixpoint sends_flushed (l : list (list Z)) : bool :=
+  match l with
+  | [] => true
+  | t :: r =>
+      (if starts_with (s2z "call:self._h2_connection.send_data") t then
+         match r with
+         | a :: b :: _ => zlist_eqb a (s2z "call:self._h2_connection.data_to_send") &&
+                          zlist_eqb b (s2z "call:self._transport.write")
+         | _ => false
+         end
+       else true) && sends_flushed r
+  end.
+
 Lemma source_skeleton :
   sk_send_data = map s2z expected_send_data /\
   sk_process_window_updated = map s2z expected_window_updated /\
   sk_process_remote_settings_changed = map s2z expected_settings_changed /\
   sk_connection_pause_writing = [s2z "call:self.write_ready.clear"] /\
-  sk_connection_resume_writing = [s2z "call:self.write_ready.set"] /\
+  sk_connection_resume_writing = map s2z expected_resume_writing /\
+  sk_connection_flush = map s2z expected_flush /\
   sk_protocol_pause_writing = [s2z "call:self.connection.pause_writing"] /\
   sk_protocol_resume_writing = [s2z "call:self.connection.resume_writing"].
 Proof. vm_compute. repeat split; reflexivity. Qed.
@@ -1390,3 +1422,6 @@ Lemma source_two_suspension_points :
   awaits_in (skipn 8 sk_send_data) = 0%nat /\
   nth_error sk_send_data 2 = Some (s2z "call:self._h2_connection.local_flow_control_window").
 Proof. vm_compute. repeat split; reflexivity. Qed.
+
+Lemma source_sends_flushed_at_once : sends_flushed sk_send_data = true.
+Proof. vm_compute. reflexivity. Qed.
